@@ -191,7 +191,13 @@ class Journaler:
 
             self.conn.commit()
         except sqlite3.IntegrityError as e:
+            self.conn.rollback()
             raise DuplicateSeqNoError("%s is a duplicate, error %s" % (seq_no, repr(e)))
+        except Exception:
+            # a row that was refused must not stay pending: the next commit of this
+            #  connection would store it (and its counter update) after all
+            self.conn.rollback()
+            raise
 
     def recover_msg(
         self,
